@@ -301,6 +301,8 @@ def run_merge(case, ctx: Ctx) -> None:
         sig = lambda what: f"C12|{what}|shape={shape}"  # noqa: E731
         before = snapshot(fs)
         o = run(cur, sql)
+        if o.ok and shape == "expression-right-hand-side" and "duplicate-target-keys" in shapes:
+            shape = "duplicate-target-keys"  # the expression was accepted: what can still go wrong here is the re-join by key
         where = f"{sql}   -- TGT={tgt} SRC={src}"
         ms = lambda rows: sorted((tuple(r) for r in rows), key=repr)  # noqa: E731
         if fails_expected:
